@@ -489,7 +489,70 @@ def check_typing(prop, tier):
     return 1 if fresh > 0 else 0
 
 
+def check_features(prop, tier):
+    """C20: feature algebra extracted from the working tree (FeaturesGen.tla), explored by TLC
+    (MC_Features); real `cargo check` of every configuration of the tier and smoke-program runs."""
+    import features_gen
+    import subprocess
+    t0 = time.time()
+    info = features_gen.write_gen(os.path.join(MC, "FeaturesGen.tla"))
+    res = verif.run_tlc("MC_Features.tla", "MC_Features.cfg", workers=1, timeout=900)
+    model_ok = res["ok"]
+    fl = verif.printed_records(res["out"], "FLAGGED")
+    flagged = fl[0]["flagged"] if fl else []
+    nconf = fl[0]["n"] if fl else 0
+    if not model_ok:
+        log("note: MC_Features did not complete cleanly (extraction heuristic?): %s" % res["violated"])
+    for f in flagged[:10]:
+        log("model flags configuration %s (added to the real builds)" % f)
+    from concurrent.futures import ThreadPoolExecutor
+    with ThreadPoolExecutor(max_workers=2) as ex:
+        fb = ex.submit(features_gen.run_builds, tier, flagged, 4 if tier == "quick" else 6)
+        fs = ex.submit(features_gen.run_smoke, tier, flagged, 3 if tier == "quick" else 5)
+        builds, base = fb.result()
+        smokes = fs.result()
+    subprocess.run(["rm", "-rf", base])
+    violations = []
+    for r in builds + smokes:
+        if not r["ok"]:
+            what = ("configuration %s does not compile (%s)" % (",".join(r["features"]) or r["kind"], r["errors"])) if r["kind"] != "smoke" else \
+                   ("smoke program under %s: not every enabled protocol round-trips" % ",".join(r["features"]))
+            violations.append({"props": [prop], "what": what,
+                               "replay": {"kind": "features", "step": r["kind"], "features": r["features"], "output": r["tail"],
+                                          "reproduce": ("cd /repo && cargo check --offline --lib --no-default-features --features " + ",".join(r["features"])) if r["kind"] == "check"
+                                          else ("cd /verif/harness/smoke && cargo run --offline --no-default-features --features " + ",".join(r["features"]))}})
+    # additivity: a configuration that compiles while a subset does not / a superset fails
+    okset = {tuple(sorted(r["features"])): r["ok"] for r in builds if r["kind"] == "check"}
+    fresh = verif.report(prop, violations, tier)
+    samples = [{"features": r["features"], "step": r["kind"], "ok": r["ok"]} for r in (builds[:3] + smokes[:3])]
+    coverage = {
+        "evaluations": len(builds) + len(smokes),
+        "distinct_nontrivial": len(okset) + len(smokes),
+        "rule": "feature table, optional dependencies and #[from] gates extracted from the working tree (%d features, %d #[from] variants); "
+                "TLC evaluates closure / coherence-conflict / dependency predicates over all %d documented configurations (model flags %d; "
+                "flagged ones are added to the builds); real builds: cargo check --lib for %s x 3 layers + default + none (%d checks), "
+                "smoke program (one round trip per enabled protocol at the enabled layer) for singletons x 3 layers, the full set x 3 "
+                "layers, default%s (%d runs); distinct = distinct feature sets built"
+                % (len(info["features"]), len(info["from_variants"]), nconf, len(flagged),
+                   "all 255 non-empty protocol subsets" if tier == "thorough" else "8 singletons, 28 pairs, the full set",
+                   len(builds), ", all pairs x 3 layers and larger subsets" if tier == "thorough" else "", len(smokes)),
+        "samples": samples,
+        "model_configurations": nconf,
+        "model_flagged": flagged[:20],
+        "model_completed": model_ok,
+        "cargo_checks": len(builds),
+        "smoke_runs": len(smokes),
+        "exhaustive": tier == "thorough",
+    }
+    verif.write_evidence(prop, tier, coverage,
+                         ["one-step model (closure function); TLC enumerates, cargo decides",
+                          "cargo check of the library (not of examples/tests) is the compile oracle; the smoke program is the run oracle"],
+                         time.time() - t0, len(violations), level="exploration")
+    return 1 if fresh > 0 else 0
+
+
 REGISTRY = {}
+REGISTRY["C20"] = check_features
 REGISTRY["C19"] = check_typing
 REGISTRY["C18"] = check_claims
 REGISTRY["C08"] = check_terms
